@@ -129,3 +129,24 @@ def run_fresh(fn, *args, cwd=None):
     if kind == "exc":
         raise H.HarnessError("fresh child failed: " + val)
     return val
+
+
+def json_document(text, last=False):
+    """The JSON document a command printed on stdout, whatever progress lines precede or follow it (tally prints its banner and
+    per-source lines in front of `--format json` output; where they go is not part of any property).  Candidates are position 0 and
+    every line that starts with '{' or '['; the first (or, with last=True, the last) one that decodes wins."""
+    import json as _json
+    import re as _re
+    dec = _json.JSONDecoder()
+    starts = ([0] if text[:1] in ("{", "[") else []) + [m.end() for m in _re.finditer(r"\n(?=[{\[])", text)]
+    found = None
+    for i in starts:
+        try:
+            found = dec.raw_decode(text[i:])[0]
+        except ValueError:
+            continue
+        if not last:
+            return found
+    if found is None:
+        raise ValueError("no JSON document in the output")
+    return found
